@@ -655,6 +655,47 @@ fn run_one(text: &str) {
                     verdict.push(format!("forest invalid: {e}"));
                 }
             },
+            "monotone_check" => {
+                // count=.. candidates=.. vec=.. : the results for search_k = 1, 2, ..., 12 must never get
+                // shorter nor farther at any rank when the budget grows
+                let reader = match Reader::<D>::open(&wtxn, index, db) {
+                    Ok(r) => r,
+                    Err(e) => {
+                        verdict.push(format!("reader does not open: {e}"));
+                        continue;
+                    }
+                };
+                let count: usize = kv(&tok, "count").unwrap().parse().unwrap();
+                let v = floats(kv(&tok, "vec").unwrap());
+                let cand: Option<RoaringBitmap> =
+                    kv(&tok, "candidates").filter(|s| *s != "none").map(|s| RoaringBitmap::from_iter(ids(s)));
+                let mut prev: Option<(usize, Vec<(u32, f32)>)> = None;
+                for k in 1..=12usize {
+                    let mut q = reader.nns(count);
+                    q.search_k(NonZeroUsize::new(k).unwrap());
+                    if let Some(c) = cand.as_ref() {
+                        q.candidates(c);
+                    }
+                    let got = match q.by_vector(&wtxn, &v) {
+                        Ok(g) => g,
+                        Err(e) => {
+                            verdict.push(format!("query with search_k {k} fails: {e}"));
+                            break;
+                        }
+                    };
+                    if let Some((pk, p)) = &prev {
+                        if got.len() < p.len() {
+                            verdict.push(format!("search_k {pk} returns {} results, search_k {k} only {}", p.len(), got.len()));
+                            break;
+                        }
+                        if let Some(i) = (0..p.len()).find(|i| got[*i].1 > p[*i].1) {
+                            verdict.push(format!("rank {i}: search_k {pk} returns distance {}, search_k {k} the farther {}", p[i].1, got[i].1));
+                            break;
+                        }
+                    }
+                    prev = Some((k, got));
+                }
+            }
             "query" => {
                 let reader = match Reader::<D>::open(&wtxn, index, db) {
                     Ok(r) => r,
